@@ -125,6 +125,13 @@ def vacuity(ck, serve, poll, s):
     ck.sample(dict(trace="poller-seed%d" % s, events=[e for e in poll if e["ev"] == "Poll" and e["status"] == "Illegal"][:1]))
 
 
+def replay(ck, obj):
+    """re-validate the recorded trace a violation file points at (python3 tools/check.py C16 --replay <file>)"""
+    trace = obj["replay"]["trace"]
+    mod = "CertExchangeTrace" if os.path.basename(trace).startswith("serve") else "PollerTrace"
+    vlib.validate_trace(ck, SPECDIR, mod, mod + ".cfg", trace, "replay")
+
+
 MANIFEST = dict(
     text=("TLC checks on CertExchange.tla that the prescribed response (pending = latest+1 or 0, power table of `first` iff requested and first <= pending, "
           "certificates first..min(first+limit,pending)-1, <= limit and <= cap, stored encodings in order) satisfies the C16 clauses for every store of <= 6 (10) "
